@@ -10,6 +10,7 @@ import (
 	"net/netip"
 	"strings"
 	"sync"
+	"time"
 
 	"github.com/IrineSistiana/mosproxy/verif/internal/fakeup"
 	"github.com/IrineSistiana/mosproxy/verif/internal/gen"
@@ -349,6 +350,42 @@ func c12Run(c *Ctx, ecs bool) {
 			c.Ev.Sample(map[string]any{"mode": mode, "listener": listener, "client": fmt.Sprint(addr), "name": name, "upstream_queries": seen})
 		}
 	})
+	// response sizes in 1-byte steps around the client's UDP size: the OPT record must survive truncation
+	if ecs && b.Proxy.Alive() && c.ViolationCount() < 10 {
+		nSweep := 4 * 256
+		parallelFor(nSweep, 16, func() bool { return c.ViolationCount() >= 10 || !b.Proxy.Alive() }, func(i int) {
+			n, pad := 2+i/256, i%256
+			adv := []uint16{512, 600}[i%2]
+			name := fmt.Sprintf("ok-n%d-pad%d-ttl300-sw%dx%d.pipe.test.", n, pad, i, c.Seed)
+			q := new(dns.Msg)
+			q.Id = uint16(i)
+			q.RecursionDesired = true
+			q.Question = []dns.Question{{Name: name, Qtype: dns.TypeTXT, Qclass: dns.ClassINET}}
+			q.SetEdns0(adv, false)
+			wire, _ := q.Pack()
+			x := b.Exchange("udp", wire, xOpts{Timeout: 5 * time.Second})
+			c.Ev.Eval(1)
+			if x.Err != nil || len(x.Resp) == 0 {
+				c.Inconclusive("size sweep: no response")
+				return
+			}
+			nOpt, opts, _, err := c12RawOPTs(x.Resp)
+			probe := c12Probe{Listener: "udp", Name: name, QueryOpt: fmt.Sprintf("opt size %d", adv), QueryHex: hex.EncodeToString(wire)}
+			switch {
+			case err != nil:
+				c.Violation("undecodable-response:udp", "size sweep: response does not decode: "+err.Error(), probe)
+			case nOpt != 1:
+				c.Violation("opt-count:size-sweep", fmt.Sprintf("query advertised %d bytes and had an OPT record; the %d-byte response has %d OPT records", adv, len(x.Resp), nOpt), probe)
+			case len(opts[0]) != 0:
+				c.Violation("option-relayed-to-client:size-sweep", "response OPT carries options", probe)
+			default:
+				c.Ev.Count(mode+"_size_sweep_responses_checked", 1)
+				if len(x.Resp) > int(adv)-40 {
+					c.Ev.Distinct(mode, "size-sweep", len(x.Resp), adv)
+				}
+			}
+		})
+	}
 	alive := b.Proxy.Alive()
 	res := b.Stop()
 	if !alive {
